@@ -1273,6 +1273,13 @@ impl C15 {
                         }
                     }
                 }
+                // a slice type listed twice in the remaining accounts: the first slice's accounts would go unchecked
+                let dup = crate::mon::c17::duplicated_slice_accepted(v.ix, l, cov);
+                self.cell(format!("{} / remaining accounts / the same slice type listed twice", name), dup.is_none());
+                if let Some(d) = dup {
+                    out.push(v15("duplicated_slice_type_accepted", idx, d));
+                    return;
+                }
                 // the consistent version: one pool's genuine accounts in both legs, opposite directions
                 let acc = crate::mon::c17::same_pool_twice_accepted(v.ix, l, cov);
                 self.cell(format!("{} / both legs / one pool's genuine accounts twice", name), acc.is_none());
